@@ -404,12 +404,7 @@ func (e *Exec) global(g *ssa.Global) *Object {
 	}
 	et := g.Type().(*types.Pointer).Elem()
 	var o *Object
-	if pt, ok := et.Underlying().(*types.Pointer); ok && g.Pkg != nil && g.Name() == "log" {
-		// library logger: a non-nil dummy so that field addressing works; its methods are no-ops
-		o = e.newObj(PtrV{Obj: e.newObj(e.safeZero(pt.Elem()))})
-	} else {
-		o = e.newObj(e.safeZero(et))
-	}
+	o = e.newObj(e.safeZero(et))
 	e.globals[g] = o
 	return o
 }
@@ -583,6 +578,14 @@ func (e *Exec) callCommon(fr *frame, c *ssa.CallCommon) (Value, []Value) {
 				margs = append(margs, e.get(fr, a))
 			}
 			return NativeFn(func([]Value) Value { return e.ctxMethod(cv, name, margs) }), nil
+		}
+		if _, ok := recv.V.(OpaqueV); ok {
+			var margs []Value
+			for _, a := range c.Args {
+				margs = append(margs, e.get(fr, a))
+			}
+			sig := c.Method.Type().(*types.Signature)
+			return NativeFn(func([]Value) Value { return e.opaqueResults(sig, margs) }), nil
 		}
 		if recv.T == nil {
 			panic(goPanic{msg: "invoke on nil interface " + c.Method.Name()})
